@@ -13,6 +13,9 @@ VARIABLES l, c, bad
 \* "agree": the integer relation holds and the residual is below 1e-3 of a unit
 ResTol == 1000
 Small(x) == x >= -ResTol /\ x <= ResTol
+\* large values (axial end points, tan(theta)*chord of very oblique segments: > 1000 units) carry single-precision
+\* rounding of a few ulp: 2e-6 relative on top of the absolute bound
+SmallRel(q, x) == x >= -(ResTol + 2 * Abs(q)) /\ x <= ResTol + 2 * Abs(q)
 Is(qr, v) == qr[1] = v /\ Small(qr[2])                      \* scalar <<q, r>>
 IsAt(r, f, fr, i, v) == r[f][i] = v /\ Small(r[fr][i])      \* element i of the arrays f / fr
 
@@ -90,8 +93,8 @@ RowCyl(r) ==
        /\ r.s[i] = t                                          \* asin(s/R) = tang * pi/N
        /\ (5 * Abs(t) <= 2 * c.N) =>                          \* WellCond
             /\ LorOk(r, i, k, t)
-            /\ Small(r.lpr[i]) /\ Small(r.lbr[i]) /\ Small(r.z1r[i]) /\ Small(r.z2r[i])
-            /\ r.th[i] = k[4] /\ Small(r.thr[i])              \* tan(theta) * chord = z2 - z1
+            /\ Small(r.lpr[i]) /\ Small(r.lbr[i]) /\ SmallRel(r.z1[i], r.z1r[i]) /\ SmallRel(r.z2[i], r.z2r[i])
+            /\ r.th[i] = k[4] /\ SmallRel(r.th[i], r.thr[i])              \* tan(theta) * chord = z2 - z1
 RowArc(r) ==
   LET n == c.maxTang - c.minTang + 1 IN
   /\ RowCommon(r, n) /\ Len(r.ss) = n /\ Len(r.ssr) = n
@@ -103,8 +106,8 @@ RowArc(r) ==
        /\ r.ss[i] = 1                                         \* "arc-corrected data have uniform tangential sampling"
        /\ (Abs(t) * c.bin3 < c.radius3 /\ 20 * Abs(t) * (c.bin3 \div 10) <= 19 * (c.radius3 \div 10)) =>   \* InRing, WellCond
             /\ LorOk(r, i, k, t)
-            /\ Small(r.lpr[i]) /\ Small(r.lbr[i]) /\ Small(r.z1r[i]) /\ Small(r.z2r[i])
-            /\ r.th[i] = k[4] /\ Small(r.thr[i])
+            /\ Small(r.lpr[i]) /\ Small(r.lbr[i]) /\ SmallRel(r.z1[i], r.z1r[i]) /\ SmallRel(r.z2[i], r.z2r[i])
+            /\ r.th[i] = k[4] /\ SmallRel(r.th[i], r.thr[i])
 \* Blocks / Generic: the coordinates are those of the line through the two crystals, reported in the
 \* standard representation (0 <= phi < pi), so s changes sign where phi wraps.  Decided here (discrete
 \* clauses only): on the representation next to the nominal view angle, s is strictly increasing in the
